@@ -10,6 +10,10 @@ fn main() {
         println!("{}", serde_json::to_string(&w).unwrap());
         return;
     }
+    if args.len() >= 4 && args[1] == "TLSPROBE" {
+        println!("{}", vh::c18::shutdown_probe(args[2].parse().unwrap()));
+        return;
+    }
     if args.len() >= 4 && args[1] == "DEEPDOM" {
         // probe (run in a subprocess by C09): a chain `depth` deep through one operation
         let depth: usize = args[2].parse().unwrap();
@@ -379,8 +383,13 @@ fn check_c18(tier: Tier) {
             "configs": total.configs - before.0, "schedules": total.executions - before.1,
         }));
     }
+    // handles dropped by thread-local destructors / at process exit (four subprocess scenarios)
+    for (key, what, case) in vh::c18::shutdown_probes() {
+        run.violation(&key, &what, || case);
+    }
     let samples: Vec<Value> = total.samples.iter().map(|s| serde_json::from_str(s).unwrap()).collect();
     let cov = json!({
+        "thread_shutdown_scenarios": 4,
         "states": total.executions,
         "transitions": total.executions * total.max_steps as u64,
         "traces_validated_against_impl": total.executions,
@@ -501,6 +510,12 @@ fn replay(prop: &str, file: &std::path::Path) {
             }
             println!("REPLAY property=C02 outcome={}", if vs.is_empty() { "holds" } else { "violation" });
             std::process::exit(if vs.is_empty() { 0 } else { 1 });
+        }
+        "C18" if case.get("shutdown_probe").is_some() => {
+            let r = vh::c18::shutdown_probe(case["shutdown_probe"].as_u64().unwrap_or(0) as usize);
+            println!("observed: {}", r);
+            println!("REPLAY property=C18 outcome={}", if r == "ok" { "holds" } else { "violation" });
+            std::process::exit(if r == "ok" { 0 } else { 1 });
         }
         "C18" => {
             let fs = vh::c18::replay(case);
